@@ -176,6 +176,9 @@ func c10Acts() []act {
 func newRun10(sc *sim.Scenario) *run10 {
 	r := &run10{pool: sim.NewPool(), operands: map[int][]int{}, fired: map[string]int{}, stepRoots: map[int]int{}, fcW: -1, fcB: -1}
 	r.sgd = optimizers.NewSGD(&optimizers.SGDConfig{LearningRate: 0.1})
+	if sc.Cfg["reusebuf"] == 1 {
+		r.pool.Bufs = map[int][]int{}
+	}
 	if o := sc.CfgInt("fcout"); o > 0 {
 		w, b := sc.Data["fcW"], sc.Data["fcB"]
 		if len(w) == 0 || len(b) == 0 {
@@ -349,6 +352,10 @@ func (r *run10) execSteps(sc *sim.Scenario, check bool, final bool) {
 			xs := []tensor.Tensor{r.pool.T[st.In[0]]}
 			y, err := r.fc.Forward(xs...)
 			r.reg(k, sim.Crossed{Tensors: [][]tensor.Tensor{xs}})
+			if check && xs[0] != r.pool.T[st.In[0]] {
+				r.fail("library-wrote-caller-slice", "%s: the input list spread into FC.Forward holds another tensor after the call", where)
+				return
+			}
 			if err != nil || y == nil {
 				r.discard = "forward-error"
 				return
@@ -363,6 +370,10 @@ func (r *run10) execSteps(sc *sim.Scenario, check bool, final bool) {
 			xs := []tensor.Tensor{r.pool.T[st.In[0]]}
 			y, err := c10Acts()[st.N%6].Forward(xs...)
 			r.reg(k, sim.Crossed{Tensors: [][]tensor.Tensor{xs}})
+			if check && xs[0] != r.pool.T[st.In[0]] {
+				r.fail("library-wrote-caller-slice", "%s: the input list spread into an activation's Forward holds another tensor after the call", where)
+				return
+			}
 			if err != nil || y == nil {
 				h = h.Str("error")
 				r.lastErr = true
@@ -441,6 +452,14 @@ func (r *run10) execSteps(sc *sim.Scenario, check bool, final bool) {
 			err := tensor.BackPropagate(r.pool.T[root])
 			h = h.Str(fmt.Sprint(err))
 			may = r.upstream(root)
+			for id := range may {
+				// back-propagation changes the tensors it delivers a gradient to, and
+				// nothing else: an operand without gradient afterwards (an untracked
+				// one) was none of its business
+				if t, ok := r.pool.T[id]; ok && t.Gradient() == nil {
+					delete(may, id)
+				}
+			}
 			if r.pool.T[root].Gradient() == nil {
 				// every tracked root receives a gradient: this one was untracked and
 				// the call was turned down, so nothing at all may have changed
@@ -472,6 +491,10 @@ func (r *run10) execSteps(sc *sim.Scenario, check bool, final bool) {
 		default:
 			res := r.pool.Apply(st)
 			r.reg(k, res.Crossed)
+			if res.Wrote != "" && check {
+				r.fail("library-wrote-caller-slice", "%s: %s", where, res.Wrote)
+				return
+			}
 			if _, dang := res.Err.(sim.ErrDangling); dang {
 				r.discard = "dangling"
 				return
@@ -773,6 +796,9 @@ func (c10) Generate(r *sim.Rand, tier string) *sim.Scenario {
 	shapes := map[int][]int{}
 	var order []int
 	badCalls := r.Bool(0.5) // fault invalid-call: rejected calls between the valid ones
+	if r.Bool(0.3) {
+		sc.Cfg["reusebuf"] = 1 // the caller keeps one []int per length and passes it to every call
+	}
 	add := func(st sim.Step) bool {
 		// execute live, append on success
 		tmp := &sim.Scenario{Cfg: sc.Cfg, Data: sc.Data, Steps: []sim.Step{st}}
